@@ -1,11 +1,13 @@
 package props
 
 import (
+	"encoding/json"
 	"fmt"
 	"net"
 	"net/http"
 	"net/http/httptest"
 	"net/url"
+	"sort"
 	"strings"
 
 	"github.com/indexsupply/shovel/shovel/config"
@@ -145,6 +147,112 @@ func runC19(e *core.Env) error {
 				}
 			}
 		}
+	}
+	// ---- the switches as they arrive from the configuration FILE (JSON, the way cmd/shovel reads it)
+	for _, dv := range []string{"absent", "true", "false"} {
+		for _, lv := range []string{"absent", "true", "false"} {
+			var parts []string
+			if dv != "absent" {
+				parts = append(parts, `"disable_authn": `+dv)
+			}
+			if lv != "absent" {
+				parts = append(parts, `"enable_loopback_authn": `+lv)
+			}
+			parts = append(parts, `"root_password": "pw-from-file"`)
+			doc := `{"pg_url": "postgres:///x", "dashboard": {` + strings.Join(parts, ", ") + `}, "eth_sources": [], "integrations": []}`
+			var conf config.Root
+			verdict := "ok"
+			if err := json.Unmarshal([]byte(doc), &conf); err != nil {
+				verdict = "configuration rejected: " + err.Error()
+			} else if err := config.ValidateFix(&conf); err != nil {
+				verdict = "configuration rejected: " + err.Error()
+			} else {
+				h := web.New(nil, &conf, nil)
+				for _, tc := range []struct {
+					remote string
+					lb     bool
+				}{{"203.0.113.7:40000", false}, {"127.0.0.1:40000", true}} {
+					ran := false
+					prot := h.Authn(func(w http.ResponseWriter, r *http.Request) { ran = true; w.WriteHeader(200) })
+					req := httptest.NewRequest("POST", "/save-source", nil)
+					req.RemoteAddr = tc.remote
+					prot.ServeHTTP(httptest.NewRecorder(), req)
+					want := dv == "true" || (tc.lb && lv != "true")
+					if ran != want && verdict == "ok" {
+						verdict = fmt.Sprintf("file says disable_authn=%s enable_loopback_authn=%s: request without a session from %s ran the protected handler=%v, want %v", dv, lv, tc.remote, ran, want)
+					}
+				}
+			}
+			e.Add(core.Case{Impl: verdict, Spec: "ok", Key: "c19-file " + dv + " " + lv, Nontrivial: true, Tags: []string{"switches-from-json-file"}, Detail: map[string]any{"config": doc}})
+		}
+	}
+	// ---- a client that never presents the password but keeps every cookie it is handed (redirects, login
+	// page, failed logins) and retries: never served
+	for _, enforceLB := range []bool{false, true} {
+		conf := &config.Root{}
+		conf.Dashboard.EnableLoopbackAuthn = enforceLB
+		h := web.New(nil, conf, nil)
+		jar := map[string]string{}
+		keep := func(rec *httptest.ResponseRecorder) {
+			for _, c := range rec.Result().Cookies() {
+				if c.MaxAge < 0 || c.Value == "" {
+					delete(jar, c.Name)
+				} else {
+					jar[c.Name] = c.Value
+				}
+			}
+		}
+		hdr := func() string {
+			var cs []string
+			for k, v := range jar {
+				cs = append(cs, k+"="+v)
+			}
+			sort.Strings(cs)
+			return strings.Join(cs, "; ")
+		}
+		verdict := "ok"
+		remote := "198.51.100.9:5555"
+		steps := []string{"protected", "protected", "login-page", "protected", "wrong-password", "protected", "empty-password", "protected", "protected"}
+		for i, st := range steps {
+			rec := httptest.NewRecorder()
+			var req *http.Request
+			switch st {
+			case "protected":
+				ran := false
+				prot := h.Authn(func(w http.ResponseWriter, r *http.Request) { ran = true; w.WriteHeader(200) })
+				req = httptest.NewRequest(core.Pick(r, []string{"GET", "POST"}), core.Pick(r, []string{"/save-source", "/save-integration", "/add-source", "/add-integration", "/"}), nil)
+				req.RemoteAddr = remote
+				if c := hdr(); c != "" {
+					req.Header.Set("Cookie", c)
+				}
+				prot.ServeHTTP(rec, req)
+				if ran && verdict == "ok" {
+					verdict = fmt.Sprintf("step %d: a client that never presented the password ran a protected handler (cookies it was handed: %d)", i, len(jar))
+				}
+			case "login-page":
+				req = httptest.NewRequest("GET", "/login", nil)
+				req.RemoteAddr = remote
+				if c := hdr(); c != "" {
+					req.Header.Set("Cookie", c)
+				}
+				h.Login(rec, req)
+			default:
+				pwGuess := "not-the-password"
+				if st == "empty-password" {
+					pwGuess = ""
+				}
+				form := url.Values{"password": {pwGuess}}
+				req = httptest.NewRequest("POST", "/login", strings.NewReader(form.Encode()))
+				req.Header.Set("Content-Type", "application/x-www-form-urlencoded")
+				req.RemoteAddr = remote
+				if c := hdr(); c != "" {
+					req.Header.Set("Cookie", c)
+				}
+				h.Login(rec, req)
+			}
+			keep(rec)
+		}
+		e.Add(core.Case{Impl: verdict, Spec: "ok", Key: fmt.Sprintf("c19-jar %v", enforceLB), Nontrivial: true, Tags: []string{"cookie-jar-without-password"}})
 	}
 	return nil
 }
